@@ -290,6 +290,18 @@ Theorem c01_client_frames : forall ops c,
 Proof. exact client_frames_lemma. Qed.
 Print Assumptions c01_client_frames.
 
+(* No wrap-around of liveness, at any magnitude of time (time values are unbounded naturals here; there
+   is no 2^31 / 2^32 us, ms or s beyond which an old frame comes back): a stored frame that is not live
+   at some clock reading is not live at any later reading either, and is in no later group - a source
+   stays out of the merge from its time-out until it sends again, however long it is silent. *)
+Theorem c01_timeout_forever : forall now now' (l : srcs) e,
+  now <= now' -> liveb now (snd e) = false ->
+  liveb now' (snd e) = false /\ ~ In e (group now' l).
+Proof.
+  intros now now' l e Hle Hd. split; [exact (timeout_monotone _ _ _ Hle Hd)|exact (dead_not_in_group _ _ l e Hle Hd)].
+Qed.
+Print Assumptions c01_timeout_forever.
+
 (* struct timeval arithmetic of common/utils/Clock.cpp (TimerAdd with carry, timercmp, timerisset,
    Set(int64)) on normalised non-negative values is the microsecond arithmetic of the model:
    IsSet <-> us <> 0, IsActive(now) <-> us(now) < us(ts) + 2 500 000; constants regenerated. *)
@@ -418,4 +430,17 @@ Example ex_timeval :
   tv_norm (2, 500999) = true /\ tv_active (2, 500999) (0, 1000) = true /\
   tv_active (2, 501000) (0, 1000) = false /\ tv_active (3, 0) (0, 500000) = false /\
   tv_active (2, 999999) (0, 500000) = true /\ tv_isset (0, 0) = false.
+Proof. vm_compute. repeat split; reflexivity. Qed.
+
+(* very long silences: ages of 2^31 ms, 2^32 ms, 2^31 s, 2^32 us (+-), also as raw timevals *)
+Example ex_long_silence :
+  let s := {| s_data := [1]; s_ts := 1000; s_prio := 100 |} in
+  liveb (1000 + 2147483648000) s = false /\ liveb (1000 + 2147483648000 + 1234567890) s = false /\
+  liveb (1000 + 4294967296000 - 1) s = false /\ liveb (1000 + 4294967296000 + 2499999) s = false /\
+  liveb (1000 + 2147483648000000) s = false /\ liveb (1000 + 4294967296) s = false /\
+  tv_active (2147483, 649000) (0, 1000) = false /\ tv_active (4294967, 296999) (0, 1000) = false /\
+  tv_active (2147483648, 0) (0, 1000) = false /\
+  let w := run [AddInput 0; AddOutput 5; SetMode false; ClientData 4 [0; 9] 100 1000 1000] in
+  snd (step w (PortData 0 [7] 2147483649000 2147483649000)) = [WriteDMX 5 [7] 100] /\
+  snd (step w (PortData 0 [7] 2000 2000)) = [WriteDMX 5 [7; 9] 100].
 Proof. vm_compute. repeat split; reflexivity. Qed.
